@@ -423,14 +423,14 @@ Qed.
 
 Lemma tsearch_S_inv f tb cands dpt s p : tsearch (S f) tb cands dpt s = Ok p ->
   cands = [p] \/
-  let t := Nat.min 6 (max_code_len cands - dpt) in
+  let t := Nat.min stride (max_code_len cands - dpt) in
   let cands' := filter (fun q => compatible (skipn dpt (p_code q))
                                    (firstn t (firstn t s ++ repeat false t))) cands in
   tsearch f tb cands' (dpt + t) (skipn t s) = Ok p \/ cands' = [p].
 Proof.
   intros H.
   assert (G : (forall q, cands <> [q]) ->
-    let t := Nat.min 6 (max_code_len cands - dpt) in
+    let t := Nat.min stride (max_code_len cands - dpt) in
     let cands' := filter (fun q => compatible (skipn dpt (p_code q))
                                    (firstn t (firstn t s ++ repeat false t))) cands in
     tsearch f tb cands' (dpt + t) (skipn t s) = Ok p \/ cands' = [p]).
@@ -458,7 +458,7 @@ Proof.
     inversion H; subst q. apply (cands_single ps orig dpt p Hok). symmetry. exact Hc.
   - apply tsearch_S_inv in H. destruct H as [->|H].
     + apply (cands_single ps orig dpt p Hok). symmetry. exact Hc.
-    + cbv zeta in H. set (t := Nat.min 6 (max_code_len cands - dpt)) in *. clearbody t.
+    + cbv zeta in H. set (t := Nat.min stride (max_code_len cands - dpt)) in *. clearbody t.
       rewrite firstn_zpad in H.
       assert (Hc' : filter (fun q => compatible (skipn dpt (p_code q)) (zpad t (skipn dpt orig))) cands
                     = filter (fun q => compatible (p_code q) (zpad (dpt + t) orig)) ps).
